@@ -44,6 +44,7 @@ type WireCase struct {
 	OldExpMs int         `json:"old_exp_ms,omitempty"` // create: expiry of the record the key holds before the call (it lapses inside the call); 0 = none, removed by the harness during the first stall
 	N        int         `json:"n,omitempty"`          // putmany: number of records (expiries ExpMs, ExpMs+60, ...)
 	Stalls   []WireStall `json:"stalls,omitempty"`
+	Drop     int         `json:"drop,omitempty"`  // 1 + index of the command of the call whose REPLY is lost: the server applies it, the connection breaks before the answer arrives
 	Scale    int         `json:"scale,omitempty"` // all durations are multiplied by 1<<Scale (set on confirmation runs)
 }
 
@@ -69,6 +70,7 @@ type wireSrv struct {
 	t0      time.Time
 	onCmd   map[int]func()       // runs right before the given command is forwarded
 	onEach  func(names []string) // runs before every command of the call under test
+	drop    int                  // 1 + index of the command whose reply is lost
 	preTTL  bool                 // a stall happened and a TTL-carrying write followed it
 
 	firstDone, stallSeen bool
@@ -88,6 +90,7 @@ type wireConn struct {
 	net.Conn
 	w         *wireSrv
 	delayRead time.Duration
+	dropRead  bool
 }
 
 func cmdNames(b []byte) []string {
@@ -133,6 +136,7 @@ func (c *wireConn) Write(b []byte) (int, error) {
 	var stall time.Duration
 	pre := false
 	var first, at func()
+	dropThis := false
 	if armed && len(names) > 0 {
 		j := w.n
 		w.n++
@@ -141,6 +145,10 @@ func (c *wireConn) Write(b []byte) (int, error) {
 			if !ttlFree[nm] {
 				carries = true
 			}
+		}
+		if w.drop == j+1 {
+			dropThis = true
+			w.log = append(w.log, fmt.Sprintf("   (the reply of #%d is lost: the connection breaks)", j))
 		}
 		if d, ok := w.plan[j]; ok {
 			stall, pre = d, !carries
@@ -183,10 +191,18 @@ func (c *wireConn) Write(b []byte) (int, error) {
 	if stall > 0 && !pre {
 		c.delayRead = stall
 	}
+	if dropThis {
+		c.dropRead = true
+	}
 	return n, err
 }
 
 func (c *wireConn) Read(b []byte) (int, error) {
+	if c.dropRead {
+		time.Sleep(2 * time.Millisecond) // the server has applied the command by now
+		c.Conn.Close()
+		return 0, io.EOF
+	}
 	if d := c.delayRead; d > 0 {
 		c.delayRead = 0
 		time.Sleep(d)
@@ -222,6 +238,7 @@ func runWire(c WireCase) (info WireInfo, v *vstat.Violation) {
 	for _, s := range c.Stalls {
 		w.plan[s.Cmd] = ms(s.Ms)
 	}
+	w.drop = c.Drop
 	dial := func(ctx context.Context, network, addr string) (net.Conn, error) {
 		cn, err := (&net.Dialer{}).DialContext(ctx, network, addr)
 		if err != nil {
@@ -390,6 +407,20 @@ func runWire(c WireCase) (info WireInfo, v *vstat.Violation) {
 	info.Commands = w.n
 	info.StalledBeforeWrite = w.preTTL
 	w.mu.Unlock()
+	if c.Drop > 0 {
+		// a lost reply: the call may report the connection error (the write may or may not have been applied), or succeed
+		// after retrying; what it must not do is give a definite negative answer while its write is in the storage
+		info.StalledBeforeWrite, info.Exact = true, true
+		r, gerr := raw.Get(ctx, wireKey)
+		mine := gerr == nil && string(r.Value) == "new0"
+		if callErr != nil && (gerrors.Is(callErr, gerrors.ErrConflict) || gerrors.Is(callErr, gerrors.ErrNotExist)) && mine && (c.Op == "cas" || c.Op == "casretry") {
+			return info, fail("wire:negative-answer-but-applied", "%s returned %v (a loser changes nothing) although the record now holds the value of this very call: the write was applied, its reply was lost, and the call answered from what it found on a second look", c.Op, callErr)
+		}
+		if callErr == nil && !mine {
+			return info, fail("wire:success-but-not-applied", "%s returned nil after a lost reply, the record does not hold its value (Get: %q, %v)", c.Op, r.Value, gerr)
+		}
+		return info, nil
+	}
 	if callErr != nil {
 		return info, fail("wire:unexpected-error", "%s returned %v", c.Op, callErr)
 	}
